@@ -36,6 +36,11 @@ type PCase struct {
 	Deref  bool     `json:"deref"`
 	Ignore bool     `json:"ignore"`
 	Allow  []string `json:"allow"`
+	// NoModel: the rule file is outside the modelled fragment (a pattern that is not a valid regular
+	// expression after translation); the case is judged by the oracles only, which read OracleRules
+	// (the rule file without the lines the implementation has to skip)
+	NoModel     bool    `json:"no_model,omitempty"`
+	OracleRules *string `json:"oracle_rules,omitempty"`
 }
 
 var fracs = []int64{0, 400000000, 500000000, 600000000}
@@ -355,13 +360,35 @@ func oddSourceCase(src string) *PCase {
 	}}
 }
 
-var packCorpus = []*PCase{symlinkedComponentCase("BB", true), symlinkedComponentCase("B", true), symlinkedComponentCase("BB", false),
+// one malformed pattern among valid rules: the valid rules still decide what ships (seed C03-e: the whole
+// rule file discarded, Pack falling back to the built-in rules)
+func badPatternCase(bad string, deref bool) *PCase {
+	valid := "*.tfstate\nsecrets/\n/top-only.txt\n"
+	return &PCase{Src: "@ARENA@/p/src", Deref: deref, Ignore: true, NoModel: true, OracleRules: &valid, Nodes: []PNode{
+		{Path: "p", Kind: "d", Perm: 0755, Mtime: 1300000000e9},
+		{Path: "p/src", Kind: "d", Perm: 0755, Mtime: 1300000001e9},
+		{Path: "p/src/main.tf", Kind: "f", Perm: 0644, Mtime: 1300000010e9, Data: "m"},
+		{Path: "p/src/terraform.tfstate", Kind: "f", Perm: 0600, Mtime: 1300000010e9, Data: "state"},
+		{Path: "p/src/secrets", Kind: "d", Perm: 0700, Mtime: 1300000010e9},
+		{Path: "p/src/secrets/key.pem", Kind: "f", Perm: 0600, Mtime: 1300000010e9, Data: "key"},
+		{Path: "p/src/top-only.txt", Kind: "f", Perm: 0644, Mtime: 1300000010e9, Data: "t"},
+		{Path: "p/src/sub", Kind: "d", Perm: 0755, Mtime: 1300000010e9},
+		{Path: "p/src/sub/top-only.txt", Kind: "f", Perm: 0644, Mtime: 1300000010e9, Data: "kept"},
+		{Path: "p/src/.terraformignore", Kind: "f", Perm: 0644, Mtime: 1400000000e9, Data: "*.tfstate\n" + bad + "\nsecrets/\n/top-only.txt\n"},
+	}}
+}
+
+var packCorpus = []*PCase{
+	badPatternCase("logs/[0-9.log", false), badPatternCase("[z-a]", false), badPatternCase("[", true),symlinkedComponentCase("BB", true), symlinkedComponentCase("B", true), symlinkedComponentCase("BB", false),
 	oddSourceCase("@ARENA@/p/missing"), oddSourceCase("@ARENA@/p/plain"), oddSourceCase("@ARENA@/p/dangling"), oddSourceCase("@ARENA@/p/pipe"), oddSourceCase("@ARENA@/p/plain/"),
 	derefRuleCase("l/inner\n"), derefRuleCase("inner\n"), derefRuleCase("l/sub/\n"), derefRuleCase("/l/*\n!/l/other\n"), derefRuleCase("l/\n!l/sub/deep\n"),
 }
 
 // the rule file content Pack reads for the case's source directory ("" = none readable: defaults)
 func packRuleFile(c *PCase) string {
+	if c.OracleRules != nil {
+		return *c.OracleRules
+	}
 	byPath := map[string]PNode{}
 	for _, n := range c.Nodes {
 		byPath[n.Path] = n
@@ -481,6 +508,9 @@ func runPackLane(cfg *Config, rep *Report, gen func(r *Rng, i int) []*PCase) {
 			rep.Case(fmt.Sprintf("%v", *c), nt, map[string]interface{}{"case": c, "result": out.class})
 			rep.Count("result:" + out.class)
 			judgePack(rep, c, arena, src, allow, out, i)
+			if c.NoModel {
+				reqs[i] = ""
+			}
 		}(i)
 	}
 	wg.Wait()
@@ -841,6 +871,8 @@ func init() {
 						rep.Count("result:" + o.class)
 						if o.class == "ok" {
 							rep.AddOracle(OracleFailure{Property: "C12", Lane: "pack-faults", What: fmt.Sprintf("Pack reported success although the writer failed after %d of %d bytes", k, n), Input: map[string]interface{}{"case": c, "fail_after": k}})
+							// the Meta it returned then describes a slug that was never written in full
+							rep.AddOracle(OracleFailure{Property: "C20", Lane: "pack-faults", What: fmt.Sprintf("Pack returned a Meta for a slug of which only %d of %d bytes reached the writer", k, n), Input: map[string]interface{}{"case": c, "fail_after": k}})
 						}
 						if o.panic != nil || o.timeout {
 							rep.AddOracle(OracleFailure{Property: "C19", Lane: "pack-faults", What: "Pack " + o.class + " under a failing writer", Input: c})
@@ -862,6 +894,14 @@ func init() {
 }
 
 // ---------- pack-spelling lane (C16): same tree, varied spelling / cwd / history / concurrency ----------
+
+// slowWriter yields between writes so that overlapping Pack calls really overlap
+type slowWriter struct{ w io.Writer }
+
+func (s *slowWriter) Write(p []byte) (int, error) {
+	time.Sleep(200 * time.Microsecond)
+	return s.w.Write(p)
+}
 
 func init() {
 	lanes["pack-spelling"] = func(cfg *Config, rep *Report) {
@@ -962,6 +1002,9 @@ func init() {
 					second := packWith(shared, arena2+"/p/src")
 					if second != fresh {
 						rep.AddOracle(OracleFailure{Property: "C16", Lane: "pack-spelling", What: "a Packer that packed another directory before produces a different slug than a fresh Packer with the same options (relative allow-list prefix)", Input: c})
+						// the tree itself is packed correctly by a fresh Packer: the reused one no longer
+						// reproduces it (seed C02-e: a root remembered from the first call)
+						rep.AddOracle(OracleFailure{Property: "C02", Lane: "pack-spelling", What: "a reused Packer does not produce the slug of the tree it is given (a fresh Packer does): " + firstDiffLine(fresh, second), Input: c})
 					}
 					rep.Count("shared-packer")
 					// C05 through the same history: the second tree has a link into the FIRST root's
@@ -1056,6 +1099,60 @@ func init() {
 					rep.AddOracle(OracleFailure{Property: "C16", Lane: "pack-spelling", What: "after the rule file was replaced (same size and mtime) the directory packs differently from an identical tree at another path: earlier parsing leaks into this Pack", Input: c})
 				}
 				os.RemoveAll(rdir)
+			}
+			// history (c): ONE Packer used by overlapping Pack calls on two directories with different rule
+			// files; each slug must be what a fresh Packer gives for that directory (seed C16-e: the parsed
+			// rules kept in the Packer)
+			if a%4 == 0 {
+				sdir := filepath.Join(work, fmt.Sprintf("c%05d", a))
+				mk := func(root, rules string) {
+					os.MkdirAll(filepath.Join(root, "sub"), 0755)
+					for i := 0; i < 12; i++ {
+						os.WriteFile(filepath.Join(root, fmt.Sprintf("a%02d.txt", i)), []byte("a"), 0644)
+						os.WriteFile(filepath.Join(root, fmt.Sprintf("b%02d.log", i)), []byte("b"), 0644)
+						os.WriteFile(filepath.Join(root, "sub", fmt.Sprintf("c%02d.tmp", i)), []byte("c"), 0644)
+					}
+					os.WriteFile(filepath.Join(root, ".terraformignore"), []byte(rules), 0644)
+				}
+				mk(filepath.Join(sdir, "one"), "*.log\n")
+				mk(filepath.Join(sdir, "two"), "*.tmp\n*.txt\n")
+				packP := func(p *slug.Packer, root string, slow bool) string {
+					var buf bytes.Buffer
+					var w io.Writer = &buf
+					if slow {
+						w = &slowWriter{w: &buf}
+					}
+					m, err := p.Pack(root, w)
+					o := packOut{class: classify(err), meta: m}
+					if err == nil {
+						o.entries, o.sizes, _ = decodeSlug(buf.Bytes())
+					}
+					return canonPack(o)
+				}
+				newP := func() *slug.Packer { p, _ := slug.NewPacker(slug.ApplyTerraformIgnore()); return p }
+				want := map[string]string{"one": packP(newP(), filepath.Join(sdir, "one"), false), "two": packP(newP(), filepath.Join(sdir, "two"), false)}
+				shared := newP()
+				var cwg sync.WaitGroup
+				var cmu sync.Mutex
+				bad := ""
+				for g := 0; g < 8; g++ {
+					cwg.Add(1)
+					go func(g int) {
+						defer cwg.Done()
+						name := []string{"one", "two"}[g%2]
+						if got := packP(shared, filepath.Join(sdir, name), true); got != want[name] {
+							cmu.Lock()
+							bad = name
+							cmu.Unlock()
+						}
+					}(g)
+				}
+				cwg.Wait()
+				rep.Count("shared-packer-concurrent")
+				if bad != "" {
+					rep.AddOracle(OracleFailure{Property: "C16", Lane: "pack-spelling", What: "one Packer used by overlapping Pack calls on two directories with different rule files: the slug of directory '" + bad + "' differs from what a fresh Packer produces", Input: c})
+				}
+				os.RemoveAll(sdir)
 			}
 			// concurrent Pack calls of the same tree
 			var wg sync.WaitGroup
